@@ -344,6 +344,7 @@ PROPS = {
                 {"name": "c18_shapes", "covers": ["stored", "refused"], "quick": {"max_paths": 1000, "timeout": 300}},
                 {"name": "c18_sync_flush", "covers": ["merge_with_cleanup", "merge_without_cleanup", "overlap"], "quick": {"max_paths": 100000, "timeout": 600}},
                 {"name": "c18_concurrent_flush", "covers": ["interleaved", "not_interleaved"], "quick": {"max_paths": 10000, "timeout": 600}},
+                {"name": "c18_load_bulk_file", "covers": ["bulk_loaded"], "quick": {"max_paths": 10000, "timeout": 600}},
                 {"name": "c18_corrupt", "covers": ["loaded_corrupt"], "quick": {"max_paths": 1000, "timeout": 300}},
                 {"name": "c18_untrusted_file", "covers": ["loaded"], "quick": {"max_paths": 10000, "timeout": 300}},
             ]},
